@@ -488,10 +488,12 @@ pub fn run_pool(ctx: &mut Ctx) {
                         if let Some(r) = refs.get_mut(&qid) {
                             r.on_ask(ctx, p.raw(), now_ns, "pool");
                             if drain {
+                                // (an answer can only be reported to a query the pool still holds: a pool may take a
+                                // concluded query out of reach before it hands it over)
                                 if let Some(q) = pool.get_mut(query::QueryId(qid)) {
                                     q.on_success(&p, &[]);
+                                    r.note_success(p.raw(), &[]);
                                 }
-                                r.note_success(p.raw(), &[]);
                             }
                         }
                     }
@@ -520,9 +522,9 @@ pub fn run_pool(ctx: &mut Ctx) {
                                 for p in r.outstanding() {
                                     if let Some(q) = pool.get_mut(query::QueryId(*qid)) {
                                         q.on_success(&NodeId::new(&p), &[]);
+                                        r.note_success(p, &[]);
+                                        any = true;
                                     }
-                                    r.note_success(p, &[]);
-                                    any = true;
                                 }
                             }
                             if !any {
@@ -561,8 +563,8 @@ pub fn run_pool(ctx: &mut Ctx) {
                 ctx.ev(format!("t={}ms q{qid} success {} ({why}) +{}", now_ns / 1_000_000, short(&p), recs.len()));
                 if let Some(q) = pool.get_mut(query::QueryId(qid)) {
                     q.on_success(&NodeId::new(&p), &recs);
+                    refs.get_mut(&qid).unwrap().note_success(p, &recs);
                 }
-                refs.get_mut(&qid).unwrap().note_success(p, &recs);
             }
             8 => {
                 let live: Vec<usize> = refs.keys().filter(|k| !done.contains_key(k)).copied().collect();
@@ -575,8 +577,8 @@ pub fn run_pool(ctx: &mut Ctx) {
                 ctx.ev(format!("t={}ms q{qid} failure {} ({why})", now_ns / 1_000_000, short(&p)));
                 if let Some(q) = pool.get_mut(query::QueryId(qid)) {
                     q.on_failure(&NodeId::new(&p));
+                    refs.get_mut(&qid).unwrap().note_failure(p);
                 }
-                refs.get_mut(&qid).unwrap().note_failure(p);
             }
             _ => {
                 let d = *ctx.tape.pick(&[1u64, 9, 500, max_pt, query_timeout_ms / 2, query_timeout_ms, query_timeout_ms + 1]);
